@@ -194,6 +194,7 @@ class Lengths:
                 err_blocks.add(b)
         states = {0: {self._freeze(init or {})}}
         order = self._topo(fn)
+        oset = set(order)
         finals = set()
         names = {l: vn for vn, l, pj in fn.var_places if not pj}
 
@@ -235,7 +236,7 @@ class Lengths:
                     continue
                 fr = self._freeze(env)
                 for s_, _lab in fn.succs(b):
-                    if s_ in order_set(order):
+                    if s_ in oset:
                         states.setdefault(s_, set()).add(fr)
                         if len(states[s_]) > MAXP:
                             raise Unknown("too many paths in %s" % short(fn.norm))
@@ -504,11 +505,3 @@ class Lengths:
         if e[0] == "cast":
             return self._lin_with(e[2], cl, acc)
         return self.lin(e, cl)
-
-
-def order_set(order, _cache={}):
-    k = id(order)
-    if k not in _cache:
-        _cache.clear()
-        _cache[k] = set(order)
-    return _cache[k]
